@@ -23,7 +23,7 @@ ASSUMPTIONS = [
 ]
 
 KEY_A = bytes(range(32))
-KEY_B = bytes(255 - i for i in range(32))
+KEY_B = b" \t" + bytes(255 - i for i in range(28)) + b"\r\n"      # white space at either end is key material like any other byte
 PLAIN = bytes((7 * i + 3) % 256 for i in range(64))
 MAX_FAILED = 1
 FILE_ALPHABET = ["absent", "A", "B", "bad0", "bad10", "bad31", "bad33", "bad64", "nodir"]
@@ -171,8 +171,10 @@ def reachable(nobj, maxdepth):
 # the real world
 # ---------------------------------------------------------------------------------------------
 class World:
-    def __init__(self, tmp, nobj):
+    def __init__(self, tmp, nobj, aes=True):
         from cincoconfig import KeyFile
+        import cincoconfig.encryption as enc_mod
+        enc_mod.AES_AVAILABLE = bool(aes) and _AES_REALLY[0]     # the optional AES back end absent: key files are judged the same
         self.KeyFile = KeyFile
         from mc import core
         # the directory lives under the (private) home directory: odd-numbered objects name the same file home-relative
@@ -241,6 +243,14 @@ class World:
         raise ValueError(op)
 
 
+def _aes_really():
+    import cincoconfig.encryption as enc_mod
+    return bool(enc_mod.AES_AVAILABLE)
+
+
+_AES_REALLY = [True]
+
+
 def key_material(obj, _depth=0):
     """Non-empty bytes-like values reachable from the object's attributes."""
     found = []
@@ -283,6 +293,13 @@ def jobs(tier):
         if chunk:
             out.append({"name": "kf/%02d" % c, "states": chunk, "nobj": b["objects"], "maxdepth": b["max_nesting"],
                         "total_states": len(states)})
+    # the same machine with one object while the optional AES back end is reported absent
+    states1 = reachable(1, b["max_nesting"])
+    m = 4
+    for c in range(m):
+        chunk = states1[c::m]
+        if chunk:
+            out.append({"name": "kf-noaes/%02d" % c, "states": chunk, "nobj": 1, "maxdepth": b["max_nesting"], "total_states": len(states1), "aes": False})
     if tier == "thorough":
         out.append({"name": "tla-conformance", "tla": True})
     return out
@@ -295,7 +312,7 @@ def run_job(job, ctx):
         c07_tla.replay_single(ctx, single["tla_labels"])
         return
     if single:
-        check(ctx, single["nobj"], single["hist"], single["op"])
+        check(ctx, single["nobj"], single["hist"], single["op"], single.get("aes", True))
         return
     if job.get("tla"):
         from mc.props import c07_tla
@@ -308,7 +325,7 @@ def run_job(job, ctx):
         for h in hist:
             m.step(h)
         for op in m.enabled(job["maxdepth"]):
-            check(ctx, job["nobj"], hist, op)
+            check(ctx, job["nobj"], hist, op, job.get("aes", True))
     ctx.sample({"history": job["states"][-1], "objects": job["nobj"]})
     ctx.closed = True
 
@@ -329,9 +346,9 @@ def _sync(w, op, exp, real):
             del w.cts[k]
 
 
-def check(ctx, nobj, hist, op):
-    w = World(ctx.tmp, nobj)
-    case = {"nobj": nobj, "hist": hist, "op": op, "job": "kf"}
+def check(ctx, nobj, hist, op, aes=True):
+    w = World(ctx.tmp, nobj, aes)
+    case = {"nobj": nobj, "hist": hist, "op": op, "job": "kf", "aes": aes}
     # replay the history (each of these transitions is checked in its own right elsewhere)
     for h in hist:
         exp = w.model.step(h)
@@ -347,10 +364,10 @@ def check(ctx, nobj, hist, op):
     ctx.transitions += 1
     ctx.traces += 1
     after = w.model.canon()
-    ctx.case((tuple(map(tuple, hist)), tuple(op)), "%s:%s" % (op[0], exp[0] if exp[0] == "ok" else exp[1]),
+    ctx.case((tuple(map(tuple, hist)), tuple(op), aes), "%s:%s" % (op[0], exp[0] if exp[0] == "ok" else exp[1]),
              after != before or exp[0] == "raise")
     filestate = w.model.file if not w.model.file.startswith("G") else "generated"
-    fp = "C07|%s|file=%s|" % (op[0], before[0] if not str(before[0]).startswith("g") else "generated")
+    fp = "C07|%s%s|file=%s|" % ("" if aes else "no-aes|", op[0], before[0] if not str(before[0]).startswith("g") else "generated")
 
     def bad(what, msg):
         ctx.violation(fp + what, "after %s, %s: %s" % (hist, op, msg), case, size=len(hist))
